@@ -552,5 +552,6 @@ func runOne(sc *Scenario, prefix []int32, tracing bool, bound int, cache map[uin
 	return x, res, fails
 }
 
-// PoolRetain selects the sync.Pool policy of the shim (see zzverif/sync.Pool).
-var PoolRetain bool
+// PoolRetain selects the sync.Pool policy of the shim (see zzverif/sync.Pool): 0 = never hands back a
+// retained object (always New), 1 = retains everything, last in first out, 2 = first in first out.
+var PoolRetain int
